@@ -157,6 +157,19 @@ class CCodeMapper(SimplifyingSortingStringifyMapper):
                 self.rec(expr.base, PREC_NONE),
                 self.rec(expr.exponent, PREC_NONE))
 
+    def map_quotient(self, expr, enclosing_prec):
+        from pymbolic.mapper.stringifier import PREC_PRODUCT
+        if isinstance(expr.numerator, int) and isinstance(expr.denominator, int):
+            # In C, '/' on two integer constants truncates: 1 / 2 is 0.
+            # Quotient is true division.
+            return self.parenthesize_if_needed(
+                    self.format("%s / %s",
+                        repr(float(expr.numerator)),
+                        self.rec(expr.denominator, PREC_PRODUCT)),
+                    enclosing_prec, PREC_PRODUCT)
+
+        return super().map_quotient(expr, enclosing_prec)
+
     def map_floor_div(self, expr, enclosing_prec):
         # Let's see how bad of an idea this is--sane people would only
         # apply this to integers, right?
